@@ -19,6 +19,7 @@ type Env struct {
 	inOld  bool
 	depth  int
 	inQuant bool
+	calleePost bool // evaluating a callee's postcondition that is being assumed at a call site
 	assumeHeld bool // evaluating the function's own precondition: held(mu) takes effect
 	rel    map[string]*relObs // relational clause: observation constants for r1()/r2()
 }
@@ -645,7 +646,26 @@ func (e *Env) evalCall(ex *SExpr) Val {
 		case "fresh":
 			a := e.eval(args[0])
 			e.x.D.declare("Alloc0", "(Array Int Bool)")
-			return boolVal(sAnd("(not (= "+a.L[0]+" 0))", "(not (select Alloc0 "+a.L[0]+"))"))
+			parts := []string{"(not (= " + a.L[0] + " 0))", "(not (select Alloc0 " + a.L[0] + "))"}
+			if e.calleePost && !e.inQuant {
+				// assumed at a call site: the callee allocated it, so it is also distinct from
+				// everything this activation has allocated or received as fresh so far
+				for _, r := range e.s.fresh {
+					if r != a.L[0] {
+						parts = append(parts, "(not (= "+a.L[0]+" "+r+"))")
+					}
+				}
+				already := false
+				for _, r := range e.s.fresh {
+					if r == a.L[0] {
+						already = true
+					}
+				}
+				if !already {
+					e.s.fresh = append(e.s.fresh, a.L[0])
+				}
+			}
+			return boolVal(sAnd(parts...))
 		case "allocated":
 			a := e.eval(args[0])
 			e.x.D.declare("Alloc0", "(Array Int Bool)")
